@@ -175,14 +175,17 @@ async def heater_commands(t: float, u: int, use_async: bool):
 
 
 @harness(prop="C13", target="geckolib.automation.watercare:GeckoWaterCare.async_set_mode")
-async def watercare_mode_command(k: int, by_name: bool):
-    requires(both(0 <= k, k < 5))
+async def watercare_mode_command(k: int, by_name: bool, cached: int):
+    """whatever mode the client last heard of (None, the same, another): the cache may be stale -- the mode can be changed
+    at the spa's own keypad -- so a watercare command always sends exactly one command"""
+    requires(both(0 <= k, k < 5, -1 <= cached, cached < 5))
     k = concrete_cases(k, 0, 4)
+    cached = concrete_cases(cached, -1, 4)
     wc = new(GeckoWaterCare)
     wc._observers = []
     wc._name = "WaterCare"
     wc._spa = SpaRec()
-    wc.active_mode = None
+    wc.active_mode = None if cached < 0 else cached
     arg = GeckoConstants.WATERCARE_MODE_STRING[k] if by_name else k
     await wc.async_set_mode(arg)
     ensures("exactly-one-set-watercare-with-the-mode-index", wc._spa.watercare == [k])
